@@ -778,8 +778,12 @@ impl NamingActor {
             if let Some(server) = self.service_map.get_mut(&service_key) {
                 if sniffing_result {
                     server.update_perpetual_instance_healthy_valid(&host);
-                } else {
-                    server.update_instance_healthy_invalid(&host);
+                } else if let Some(instance) = server.get_instance(&host) {
+                    // a probe result only concerns a persistent instance: the address may have been
+                    // registered again as an ephemeral one while the probe was on its way
+                    if !instance.ephemeral {
+                        server.update_instance_healthy_invalid(&host);
+                    }
                 }
             }
         }
